@@ -167,7 +167,6 @@ inline bool callback(char K, int id, const Ev& e, Fsm& fsm, int completion_src_s
     }
     int k = fresh ? E.occurrence(key) : 0;
     std::string t = std::string(1, K) + ":" + std::to_string(owner) + ":" + std::to_string(id) + ":" + evtok(e) + ":" + acttok(fsm);
-    if (E.observe_flags) t += ":" + vf_flags(fsm);
     bool answer = true;
     if (K == 'N') { E.parity[id]++; E.entries[id]++; if (E.parity[id] != 1) { E.ledger_error = true; E.ledger_msg += " entry-twice:" + std::to_string(id); } }
     if (K == 'X') { E.parity[id]--; if (E.parity[id] != 0) { E.ledger_error = true; E.ledger_msg += " exit-unentered:" + std::to_string(id); } }
@@ -187,6 +186,7 @@ inline bool callback(char K, int id, const Ev& e, Fsm& fsm, int completion_src_s
         answer = (c == 0);
         t += answer ? ":1" : ":0";
     }
+    if (E.observe_flags) t += ":F" + vf_flags(fsm);
     E.tok(t);
     // deviation point: throw / nested submission
     bool pos_kind = (K == 'G' || K == 'A' || K == 'N' || K == 'X' || K == 'C' || (K == 'T' && E.submit_in_nt));
